@@ -423,6 +423,7 @@ func c02UpdateMeta(c *Check) {
 	// 1. the created file is the temporary one
 	okTmp := len(liveCreates) > 0
 	var tmpArg ast.Expr
+	tmpSuffixes := map[string]bool{}
 	var fileObj types.Object
 	for _, pt := range liveCreates {
 		call := r.CallAt(pt, isCreate)
@@ -440,6 +441,8 @@ func c02UpdateMeta(c *Check) {
 			suf, ok := pathSuffix(r.Info, r.FI.Decl.Body, cand, 0)
 			if !ok || !strings.HasSuffix(suf, ".new") || strings.HasSuffix(suf, ".meta") {
 				okTmp = false
+			} else {
+				tmpSuffixes[suf] = true
 			}
 		}
 		tmpArg = call.Args[0]
@@ -506,8 +509,26 @@ func c02UpdateMeta(c *Check) {
 	for _, pt := range renames {
 		call := r.CallAt(pt, isRename)
 		to, ok := pathSuffix(r.Info, r.FI.Decl.Body, call.Args[1], 0)
-		if !ok || to != ".meta" || tmpArg == nil || !sameExpr(call.Args[0], tmpArg) {
+		if !ok || to != ".meta" || tmpArg == nil {
 			okArgs = false
+			continue
+		}
+		if !sameExpr(call.Args[0], tmpArg) {
+			// written differently (`os.Create(tmp)` … `os.Rename(path+".new", path)`): what reaches the rename in the
+			// non-Windows world must end in the suffix of the file that was created
+			cands := []ast.Expr{call.Args[0]}
+			if o, isVar := objOf(r.Info, call.Args[0]).(*types.Var); isVar && !o.IsField() {
+				if _, n := localDef(r.Info, r.FI.Decl.Body, o); n > 1 {
+					if defs, okD := r.ReachingDefs(o, pt, noWin); okD && len(defs) > 0 {
+						cands = defs
+					}
+				}
+			}
+			for _, cand := range cands {
+				if suf, okS := pathSuffix(r.Info, r.FI.Decl.Body, cand, 0); !okS || !tmpSuffixes[suf] {
+					okArgs = false
+				}
+			}
 		}
 	}
 	c.Hold("R2", key+":rename-args", r.FI.Decl.Pos(), okArgs, "the rename does not move the file that was created onto the *.meta commit record")
